@@ -75,5 +75,32 @@ def specVariable (a : Annotation) (internal : Option (List (Rule VarIn))) (maxMo
     specForms a internal (varTermRules emptySites nterm) (varTermRules emptySites cterm) maxMods
   | _ => []
 
+
+/-! ### static rules: the table of the property -/
+
+/-- the mods offered at position `i` by a rule dict: the value of every non-empty rule, once per occurrence of `i`
+among the rule's sites (the matcher yields every position at most once), in rule order -/
+def staticOffers (rules : List (Rule (List Mod))) (i : Int) : List (List Mod) :=
+  (rules.filter fun r => !r.2.isEmpty).flatMap fun r => (r.1.filter (· = i)).map fun _ => r.2
+
+/-- (matched?, pre-modified?, mode) ↦ the mods at a position afterwards.
+`old` = mods before (`none` = unmodified), `offers` = values of the rules matching the position -/
+def staticTable (mode : Mode) (old : Option (List Mod)) (offers : List (List Mod)) : Option (List Mod) :=
+  if offers = [] then old                                   -- not matched: untouched
+  else match old with
+    | none => some offers.flatten                           -- matched, unmodified: every offered value, in order
+    | some o =>
+      match mode with
+      | .skip => some o                                     -- matched, pre-modified, skip: untouched
+      | .append => some (o ++ offers.flatten)               -- … append: existing mods, then the offered ones
+      | .overwrite => offers.getLast?                       -- … overwrite: replaced (the last matching rule wins)
+
+/-- what `apply_static_mods` has to return -/
+structure StaticSpec (a r : Annotation) (internal nterm cterm : List (Rule (List Mod))) (mode : Mode) : Prop where
+  residues : ∀ i : Int, modsAt r i = staticTable mode (modsAt a i) (staticOffers internal i)
+  nterm : r.nterm = staticTable mode a.nterm (staticOffers nterm 0)
+  cterm : r.cterm = staticTable mode a.cterm (staticOffers cterm ((a.seq.length : Int) - 1))
+  rest : { r with internal := none, nterm := none, cterm := none } = { a with internal := none, nterm := none, cterm := none }
+
 end ModBuilder
 end Pept
